@@ -99,15 +99,22 @@ theorem resetCompletion_pb (s : St) (h : PBehind s) : PBehind s.resetCompletion 
   h.of_eq (by simp) (by simp) (by simp)
 
 /-- A fresh (all-false) bitfield is installed only when there was none: the record then has no bit. -/
-theorem hadFresh_pb (m : M) (h : PBehind m.1) (hb : m.1.bf = none) : PBehind (hadFresh m).1 := by
-  unfold hadFresh
-  apply hadCheck_pb
+theorem hadFreshInstall_pb (m : M) (h : PBehind m.1) (hb : m.1.bf = none) : PBehind (hadFreshInstall m).1 := by
+  unfold hadFreshInstall
   simp only [onSt_fst]
   apply markPaddingPieces_pb
   apply resetCompletion_pb
   refine ⟨h.dv, fun i hi => ?_⟩
   have := h.sub i hi
   rw [hb] at this; cases this
+
+theorem hadFresh_pb (m : M) (h : PBehind m.1) (hb : m.1.bf = none) : PBehind (hadFresh m).1 := by
+  unfold hadFresh
+  dsimp only
+  have h0 := hadFreshInstall_pb m h hb
+  split
+  · simp only [onSt_fst]; exact stop_pb _ _ ⟨rfl, fun i hi => h0.sub i hi⟩
+  · exact hadCheck_pb _ h0
 
 theorem hadTrust_pb (m : M) (b : List Bool) (h : PBehind m.1) : PBehind (hadTrust m b).1 := by
   unfold hadTrust
